@@ -40,7 +40,7 @@ class MyErr(Exception):
     pass
 
 
-def make_harness(n_ext, max_events, n_handlers, max_depth, flushes, allow_stop, allow_reflush=False, sym_handler_prio=True, allow_raise=False, two_channels=False):
+def make_harness(n_ext, max_events, n_handlers, max_depth, flushes, allow_stop, allow_reflush=False, sym_handler_prio=True, allow_raise=False, two_channels=False, allow_forward=False):
     def harness(g):
         log = []          # (event_name, handler_idx, flush_idx)
         events = {}       # name -> dict(prio, seq, depth, fired_flush, obj)
@@ -89,6 +89,8 @@ def make_harness(n_ext, max_events, n_handlers, max_depth, flushes, allow_stop, 
                 acts.append('raise')
                 if allow_stop:
                     acts.append('stop_raise')
+            if allow_forward and allow_stop:
+                acts.append('stop_forward')
             if allow_reflush and state['reflush'] < 1 and rec['depth'] == 0:
                 acts.append('fire_reflush')
             a = g.pick('act_%s_h%d' % (name, j), acts) if len(acts) > 1 else 'none'
@@ -104,9 +106,12 @@ def make_harness(n_ext, max_events, n_handlers, max_depth, flushes, allow_stop, 
                     state['depth'] = 0      # a recursive flush is a deliberate nested dispatch
                     self.flush()
                     state['depth'] = d
-            elif a in ('stop', 'stop_raise'):
+            elif a in ('stop', 'stop_raise', 'stop_forward'):
                 event.stop()
                 state['stoppedby'][name] = j
+                if a == 'stop_forward':
+                    # the stopping handler hands the very same event object on to another channel (nobody listens there)
+                    self.fire(event, 'elsewhere')
             state['depth'] -= 1
             if a in ('raise', 'stop_raise'):
                 raise MyErr(name)
@@ -127,7 +132,7 @@ def make_harness(n_ext, max_events, n_handlers, max_depth, flushes, allow_stop, 
         on_exc.__name__ = 'on_exc'
         ns['on_exc'] = handler('exception', channel='*')(on_exc)
         Comp = type('Comp', (BaseComponent,), ns)
-        comp = Comp()
+        comp = Comp(channel='main') if allow_forward else Comp()
 
         fired_ext = 0
         dispatched = set()
@@ -275,8 +280,8 @@ def parts(tier):
             Part('handler-order-stop', make_harness(n_ext=1, max_events=2, n_handlers=3, max_depth=1, flushes=2, allow_stop=True),
                  bounds={'external_events_first_pass': 1, 'max_events': 2, 'handlers': 3, 'nesting_depth': 1, 'flushes': 2, 'actions': 'none/fire1/fire2/stop'},
                  encoded=ENC, clauses=['handler-order', 'stop-ignored', 'stop-suppressed-higher', 'handler-missing'], budget_s=70),
-            Part('handler-stop-raise', make_harness(n_ext=1, max_events=1, n_handlers=3, max_depth=0, flushes=1, allow_stop=True, allow_raise=True),
-                 bounds={'external_events_first_pass': 1, 'max_events': 1, 'handlers': 3, 'nesting_depth': 0, 'flushes': 1, 'actions': 'none/stop/raise/stop+raise'},
+            Part('handler-stop-raise', make_harness(n_ext=1, max_events=1, n_handlers=3, max_depth=0, flushes=1, allow_stop=True, allow_raise=True, allow_forward=True),
+                 bounds={'external_events_first_pass': 1, 'max_events': 1, 'handlers': 3, 'nesting_depth': 0, 'flushes': 1, 'actions': 'none/stop/raise/stop+raise/stop and re-fire the same event object to another channel'},
                  encoded=ENC, clauses=['handler-order', 'stop-ignored', 'stop-suppressed-higher', 'handler-missing'], budget_s=70),
             Part('two-channels', make_harness(n_ext=1, max_events=1, n_handlers=3, max_depth=0, flushes=1, allow_stop=True, two_channels=True),
                  bounds={'events': 1, 'handlers': 3, 'channels': "event fired to ('a','b'); each handler on 'a' or 'b'", 'stop': True},
@@ -292,7 +297,7 @@ def parts(tier):
         Part('handler-order-stop', make_harness(n_ext=1, max_events=3, n_handlers=2, max_depth=1, flushes=2, allow_stop=True),
              bounds={'external_events_first_pass': 1, 'max_events': 3, 'handlers': 2, 'nesting_depth': 1, 'flushes': 2},
              encoded=ENC, budget_s=900),
-        Part('handler-stop-raise', make_harness(n_ext=2, max_events=2, n_handlers=3, max_depth=0, flushes=1, allow_stop=True, allow_raise=True),
+        Part('handler-stop-raise', make_harness(n_ext=2, max_events=2, n_handlers=3, max_depth=0, flushes=1, allow_stop=True, allow_raise=True, allow_forward=True),
              bounds={'external_events_first_pass': 2, 'max_events': 2, 'handlers': 3, 'nesting_depth': 0, 'flushes': 1, 'actions': 'none/stop/raise/stop+raise'},
              encoded=ENC, budget_s=900),
         Part('two-channels', make_harness(n_ext=2, max_events=2, n_handlers=3, max_depth=0, flushes=1, allow_stop=True, two_channels=True),
